@@ -387,6 +387,15 @@ def ParentChildField.getForKind (pc : ParentChildField) (k : Kind) : Option Pare
 
 def ParentChildField.namedFields (pc : ParentChildField) : Bool := pc.thisMember.isNamed
 
+/-- `ApplicableAttr::has_action` -/
+def ApplicableAttr.hasAction : ApplicableAttr → Bool
+  | .field a => a.action.isSome
+  | .ghost g => g.action.isSome
+  | .parentChildField pc k => match pc.getForKind k with
+    | some a => a.action.isSome
+    | none => false
+
+
 /-- `MemberAttrs::merge` -/
 def MemberAttrs.merge (self other : MemberAttrs) : MemberAttrs :=
   if self.skipRepeat then self else
